@@ -1,5 +1,238 @@
 package main
 
-func (c *checkCtx) framesTask(prop string)  {}
-func (c *checkCtx) registryTask()           {}
-func (c *checkCtx) replay(o *Obligation) (bool, interface{}) { return false, "no replay harness for this obligation kind" }
+// Engine E2 (frames / ownership) and the lock-discipline check of the checksum registry.
+
+import (
+	"fmt"
+	"go/types"
+	"sort"
+	"strings"
+
+	"golang.org/x/tools/go/ssa"
+)
+
+// globalWriters lists, for every package-level variable of the repository, the functions that store
+// to it (directly, through a map update, or through an element / field address).
+func (V *Verifier) globalWriters() map[string][]string {
+	out := map[string][]string{}
+	for path, p := range V.pkgs {
+		if !V.inRepo(path) {
+			continue
+		}
+		var fns []*ssa.Function
+		for _, m := range p.Members {
+			switch m := m.(type) {
+			case *ssa.Function:
+				fns = append(fns, m)
+				fns = append(fns, m.AnonFuncs...)
+			case *ssa.Type:
+				ms := V.prog.MethodSets.MethodSet(types.NewPointer(m.Type()))
+				for i := 0; i < ms.Len(); i++ {
+					if f := V.prog.MethodValue(ms.At(i)); f != nil && f.Pkg == p {
+						fns = append(fns, f)
+					}
+				}
+			}
+		}
+		for _, fn := range fns {
+			for _, b := range fn.Blocks {
+				for _, in := range b.Instrs {
+					var target ssa.Value
+					switch in := in.(type) {
+					case *ssa.Store:
+						target = in.Addr
+					case *ssa.MapUpdate:
+						target = in.Map
+					default:
+						continue
+					}
+					// walk to the root of the address
+					for {
+						switch a := target.(type) {
+						case *ssa.FieldAddr:
+							target = a.X
+							continue
+						case *ssa.IndexAddr:
+							target = a.X
+							continue
+						case *ssa.UnOp:
+							target = a.X
+							continue
+						case *ssa.Slice:
+							target = a.X
+							continue
+						}
+						break
+					}
+					if g, ok := target.(*ssa.Global); ok && g.Pkg != nil && V.inRepo(g.Pkg.Pkg.Path()) {
+						name := g.Pkg.Pkg.Path() + "." + g.Name()
+						out[name] = append(out[name], fn.Name())
+					}
+				}
+			}
+		}
+	}
+	return out
+}
+
+func (c *checkCtx) framesTask(prop string) {
+	V := c.V
+	// run every codec function and every Encode / Decode; the symbolic execution records provenance
+	// obligations (C16) and every access to a package-level variable (C20)
+	c.codecTask(nil, []string{"safe"})
+	c.codecTask([]string{"(*Crc16ChecksumService).Calc", "(*Crc32ChecksumService).Calc", "(*SseBinChecksumService).Calc", "(*SzseBinChecksumService).Calc"}, []string{"safe"})
+	c.msgTask("safe", "decsafe")
+	c.tablesTask()
+	if prop == "C16" {
+		c.notes = append(c.notes, "strings are immutable values: string(b) and []byte(s) copy; unsafe, reflect and cgo are outside the verified subset, so a zero-copy conversion fails a subset or uncontracted-call obligation")
+		return
+	}
+	writers := V.globalWriters()
+	var fns []string
+	for f := range V.globalAccess {
+		fns = append(fns, f)
+	}
+	sort.Strings(fns)
+	n := 0
+	for _, f := range fns {
+		if strings.Contains(f, ".init") {
+			continue // initialisation runs before any codec call
+		}
+		var gs []string
+		for g := range V.globalAccess[f] {
+			gs = append(gs, g)
+		}
+		sort.Strings(gs)
+		for _, g := range gs {
+			how := V.globalAccess[f][g]
+			short := g[strings.LastIndexByte(g, '/')+1:]
+			if how["write"] {
+				c.obs = append(c.obs, &Obligation{Name: fmt.Sprintf("%s/frame/no-global-write(%s)", f, short), Func: f, Kind: "frame", Props: []string{prop}, Goal: False,
+					Detail: "no codec function stores to a package-level variable"})
+				n++
+				continue
+			}
+			// reads: the variable must be init-only (all stores in init or in the exported Registry...Factory hooks)
+			// or the lock-protected checksum registry
+			ok := true
+			why := "init-only"
+			if how["read-under-lock"] {
+				why = "checksum registry, read through codec.Get under its RWMutex (C19)"
+			} else {
+				for _, w := range writers[g] {
+					if !(strings.HasPrefix(w, "init") || (strings.HasPrefix(w, "Registry") && strings.HasSuffix(w, "Factory"))) {
+						ok = false
+						why = "also written by " + w
+					}
+				}
+			}
+			c.obs = append(c.obs, &Obligation{Name: fmt.Sprintf("%s/frame/global-read-is-init-only(%s)", f, short), Func: f, Kind: "frame", Props: []string{prop}, Goal: BoolC(ok),
+				Detail: "package-level state read by a codec function is only written during initialisation: " + why})
+			n++
+		}
+	}
+	if n == 0 {
+		c.obs = append(c.obs, &Obligation{Name: "frame/no-global-state-touched", Kind: "frame", Props: []string{prop}, Goal: True, Detail: "no codec function touches package-level state"})
+	}
+	c.notes = append(c.notes, "race-freedom follows from frames (disjoint write sets, shared data read-only or lock-protected) by the Go memory model; no interleaving is enumerated")
+}
+
+// ---------------------------------------------------------------- C19: the checksum registry
+
+func (c *checkCtx) registryTask() {
+	V := c.V
+	pkgPath := modPath + "/codec"
+	p := V.pkgs[pkgPath]
+	for _, name := range []string{"Registry", "Get", "Remove", "Clear"} {
+		fn := p.Func(name)
+		if fn == nil {
+			c.obs = append(c.obs, &Obligation{Name: "codec." + name + "/function-present", Kind: "contract", Goal: False, Detail: "registry operation exists"})
+			continue
+		}
+		c.funcs["codec."+name] = true
+		x := V.newExec(fn, nil, Subst{}, "codec."+name, "registry")
+		x.emitSafe = true
+		x.props = []string{"C19"}
+		st := x.initialState()
+		x.old = st.clone()
+		var acq, lastMap *Term
+		var acquired bool
+		x.onAcquire = func(s *State, g *Obj) {
+
+		}
+		_ = acq
+		_ = lastMap
+		_ = acquired
+		x.onRelease = func(s *State, mu *Obj) {
+			for _, g := range guardedBy(s, mu) {
+				if g.Kind == "map" && s.get(g).MV != nil {
+					s.relState = s.get(g).MV
+				}
+			}
+		}
+		x.onAcquireState = func(s *State, g *Obj) {
+			s.acqState = s.get(g).MV
+		}
+		x.onReturn = func(s *State, res []Value) {
+			x.lockReturn(s)
+			t := pathTag(s)
+			A, R := s.acqState, s.relState
+			k := Var("k!any", SInt)
+			switch name {
+			case "Registry":
+				svc := x.names["service"].(VBox)
+				id := svc.Inner.(VOpaque).T
+				impl := App("implements_alg", SBool, id)
+				alg := App("sbox", SInt, App("svc_alg", SSeq, id))
+				r := res[0].(VBool).T
+				if A == nil {
+					x.oblige(s, "ensures", "not-a-service-is-refused@"+t, Not(r), "a value without Algorithm() (or a nil value) is refused without touching the registry")
+					return
+				}
+				x.oblige(s, "ensures", "service@"+t, impl, "the lock is taken only for values that have an Algorithm()")
+				x.oblige(s, "ensures", "existing-name-is-refused@"+t, Implies(mdom(A, alg), And(Not(r), Eq(R, A))), "registering an existing name returns false and changes nothing")
+				x.oblige(s, "ensures", "new-name-is-inserted@"+t, Implies(Not(mdom(A, alg)), And(r, Eq(mdom(R, k), Or(Eq(k, alg), mdom(A, k))), Implies(Neq(k, alg), Eq(mval(R, k), mval(A, k))), Eq(App("svc_alg", SSeq, mval(R, alg)), App("svc_alg", SSeq, id)))),
+					"registering a new name returns true and the registry becomes the old one plus exactly that entry, filed under its own Algorithm()")
+			case "Get":
+				name0 := App("sbox", SInt, x.names["algorithm"].(VStr).T)
+				if A == nil {
+					x.oblige(s, "ensures", "lock-taken@"+t, False, "Get reads the registry under the lock")
+					return
+				}
+				ok := res[1].(VBool).T
+				x.oblige(s, "ensures", "found-iff-registered@"+t, And(Eq(ok, mdom(A, name0)), Eq(R, A)), "Get reports exactly whether the name is registered and changes nothing")
+				if b, isBox := res[0].(VBox); isBox {
+					if sv, isSvc := b.Inner.(VService); isSvc {
+						x.oblige(s, "ensures", "returns-the-registered-service@"+t, Implies(ok, Eq(sv.Alg, App("svc_alg", SSeq, mval(A, name0)))), "Get returns the service stored under that name")
+					}
+					x.oblige(s, "ensures", "nil-when-absent@"+t, Implies(Not(ok), orFalse(b.IsNil)), "Get returns nil for an unregistered name")
+				}
+			case "Remove":
+				name0 := App("sbox", SInt, x.names["algorithm"].(VStr).T)
+				if A == nil {
+					x.oblige(s, "ensures", "lock-taken@"+t, False, "Remove works under the lock")
+					return
+				}
+				x.oblige(s, "ensures", "entry-removed@"+t, And(Eq(mdom(R, k), And(Neq(k, name0), mdom(A, k))), Eq(mval(R, k), mval(A, k))), "Remove deletes exactly that name")
+			case "Clear":
+				if R == nil {
+					x.oblige(s, "ensures", "lock-taken@"+t, False, "Clear works under the lock")
+					return
+				}
+				x.oblige(s, "ensures", "registry-empty@"+t, Not(mdom(R, k)), "after Clear no name is registered")
+			}
+		}
+		x.execAll(st)
+		if x.returns == 0 {
+			x.fail(st, "vacuity", "no-return-reached", "no path reaches a return")
+		}
+		c.obs = append(c.obs, x.obs...)
+	}
+	c.notes = append(c.notes,
+		"what is proved: lock discipline (every access to the registry map lies in one critical section of its RWMutex, writes under the write lock, one acquisition per call, released on every path) and the sequential specification of each operation between the registry state at acquisition (havocked: other goroutines may have done anything) and at release",
+		"assumed, not checked: sync.RWMutex provides mutual exclusion and the happens-before edges of the Go memory model; one critical section per operation with exclusive writers implies the operation is atomic at its acquisition, hence linearizable w.r.t. the sequential specification; Algorithm() of a service is pure and stable. No interleaving is enumerated.")
+}
+
+func (c *checkCtx) replay(o *Obligation) (bool, interface{}) {
+	return false, "no replay harness for this obligation kind"
+}
